@@ -75,7 +75,7 @@ def _kw(ch: core.Chooser) -> dict:
 
 OPS = ["add", "sub", "mul", "pow", "derivative", "gradient", "hessian", "call_full", "call_partial", "call_poly", "getitem", "align", "clean", "pickle",
        "lt", "eq_cmp", "lead_exponent", "lead_coefficient", "argmax", "maximum", "str", "repr", "neg", "sum", "reshape", "concat", "where", "polynomial",
-       "isfinite", "dict_ctor", "noname_ctor", "const_tonumpy", "pow_by_poly", "call_cancelled", "symbols_one", "item_overwritten"]
+       "isfinite", "dict_ctor", "noname_ctor", "const_tonumpy", "pow_by_poly", "call_cancelled", "symbols_one", "item_overwritten", "join_monomials"]
 
 
 def _gen_op(ch: core.Chooser, nslots: int, names: List[str]) -> dict:
@@ -100,6 +100,9 @@ def _gen_op(ch: core.Chooser, nslots: int, names: List[str]) -> dict:
         node["var"] = ch.choice(names)
         node["array_arg"] = ch.chance(0.7)
         node["float_arg"] = ch.sub("float").chance(0.4)
+    if fn == "join_monomials":
+        node["e"] = ch.choice([1, 1, 2, 3])
+        node["how"] = ch.choice(["stack", "concatenate", "hstack", "vstack", "dstack", "polynomial"])
     if fn == "symbols_one":
         node["spec"] = ch.choice(["q", "q0", "q1 q2", "q:2", "q", "q3"])
     if fn == "noname_ctor":
@@ -283,7 +286,11 @@ class Exec:
     def get(self, slot: int) -> Any:
         if slot not in self.pool:
             raise core.Undecided("operand slot empty")
-        return self.pool[slot]
+        value = self.pool[slot]
+        if isinstance(value, self.np.ndpoly) and len(value.keys) > 48:
+            # with retain_coefficients=True every product keeps all its zero terms; a few steps on, one operation takes minutes
+            raise core.Undecided("operand carries too many retained terms")
+        return value
 
     def poly(self, slot: int) -> Any:
         v = self.get(slot)
@@ -372,6 +379,16 @@ class Exec:
             if a.size > 2:
                 raise core.Undecided("hessian too large")
             return n.hessian(a)
+        if fn == "join_monomials":
+            # one monomial per indeterminate, all with the same exponent (the same storage pattern over different names),
+            # joined into one array
+            parts = [(i + 2) * n.symbols(nm) ** node["e"] for i, nm in enumerate(self.plan["names"])]
+            how = node["how"]
+            if how == "polynomial":
+                return n.polynomial(parts)
+            if how == "concatenate":
+                return n.concatenate([n.atleast_1d(x) for x in parts])
+            return getattr(n, how)(parts)
         if fn == "symbols_one":
             return n.symbols(node["spec"])
         if fn == "item_overwritten":
@@ -389,6 +406,8 @@ class Exec:
         if fn == "call_cancelled":
             # a polynomial that became constant because its other terms cancelled, evaluated with a number or an array
             const = (a - a) + 3
+            if (len(const.keys) > 6 or int(numpy.max(const.exponents, initial=0)) > 6) and n.get_options()["retain_coefficients"] and len(const.names) > 1:
+                raise core.Undecided("operand carries too many retained terms")  # (partial evaluation multiplies the kept symbols term by term)
             var = node["var"]
             if var not in const.names:
                 raise core.Undecided("name pruned from the operand (retain_names) or never present")
@@ -410,7 +429,12 @@ class Exec:
             if var not in a.names:
                 raise core.Undecided("name pruned from the operand (retain_names) or never present")
             if fn == "call_partial":
+                if (len(a.keys) > 8 or int(numpy.max(a.exponents, initial=0)) > 8) and n.get_options()["retain_coefficients"]:
+                    raise core.Undecided("operand carries too many retained terms")
                 return a(**{var: vals[var]})
+            if (len(a.keys) > 6 or int(numpy.max(a.exponents, initial=0)) > 6) and n.get_options()["retain_coefficients"]:
+                # substituting a polynomial multiplies term by term and, with every zero term retained, takes minutes
+                raise core.Undecided("operand carries too many retained terms")
             other = [nm for nm in self.plan["names"] if nm != var]  # independent of which names the operand still lists
             return a(**{var: n.symbols(other[0]) + 1})
         if fn == "getitem":
